@@ -429,6 +429,14 @@ fn line_and_column(input: &[u8], offset: usize) -> (usize, usize) {
     (line, offset - line_start + 1)
 }
 
+/// Verification hook: direct entry to the private error constructor (offset ->
+/// line/column computation) so it can be decided separately from the validators.
+#[cfg(feature = "verif-hooks")]
+#[doc(hidden)]
+pub fn verif_err_at(input: &[u8], offset: usize, kind: Utf8ErrorKind) -> Utf8Error {
+    err_at(input, offset, kind)
+}
+
 /// Check if a byte is a valid UTF-8 continuation byte (0x80-0xBF).
 #[inline(always)]
 fn is_continuation_byte(byte: u8) -> bool {
